@@ -265,6 +265,10 @@ def run_verus_unit(u, workdir, tier, do_canaries=True):
             if a.get('proved_in'):
                 continue    # proved on the CURRENT text by that unit, which check_property runs in the same check (dependency closure)
             want = led.get('assumed_hashes', {}).get(a['function'])
+            if want is None and 'assumed_hashes' in led:
+                res['undecided'].append('assumption %s is not in the ledger' % a['function'])
+                if res['status'] == 'pass':
+                    res['status'] = 'undecided'
             if want and want != a['sha256']:
                 res['undecided'].append('assumed contract of %s no longer validated (its text changed)' % a['function'])
                 if res['status'] == 'pass':
